@@ -37,6 +37,7 @@ class Sched(object):
         self.trace_root = instrument.ROOT
         self.npoints = 0
         self.deadlock = False
+        self.trace_only = {}      # thread -> set of file names whose statements are preemption points (default: all)
         self.loc = {}             # thread -> lomond function it is currently executing (last statement start seen)
         self.occ = {}             # (thread, location) -> occurrences so far (names of the decision variables)
         self.nforced = 0
@@ -120,19 +121,22 @@ class Sched(object):
         def local(frame, event, arg):
             if event == 'line':
                 fn = frame.f_code.co_filename.rsplit('/', 1)[-1]
-                ln = frame.f_lineno
-                # a preemption point = entering a statement (coming back to the first line of a multi-line statement,
-                # e.g. for the final CALL, is not a new point: that depends on how the expression was compiled)
-                if ln in self.stmt_lines.get(fn, ()) and last.get(id(frame)) != ln:
-                    last[id(frame)] = ln
+                st = self.stmt_lines.get(fn, {}).get(frame.f_lineno)
+                # a preemption point = entering a statement (moving between the lines of one multi-line statement is not
+                # a new point: which line comes first depends on how the expression was compiled)
+                if st is not None and last.get(id(frame)) != st:
+                    last[id(frame)] = st
                     self.loc[name] = '%s:%s' % (fn, frame.f_code.co_name)
-                    self.point(name, '%s:%d' % (fn, ln))
+                    self.point(name, '%s:%d' % (fn, st))
             elif event == 'return':
                 last.pop(id(frame), None)
             return local
 
+        only = self.trace_only.get(name)
+
         def glob(frame, event, arg):
-            if frame.f_code.co_filename.startswith(root):
+            fn = frame.f_code.co_filename
+            if fn.startswith(root) and (only is None or fn.rsplit('/', 1)[-1] in only):
                 return local
             return None
         return glob
@@ -197,17 +201,44 @@ _STMT = {}
 
 
 def stmt_start_lines(root):
-    """first line of every statement in the lomond sources (preemption points are statement starts)"""
+    """line -> first line of the innermost statement containing it, for every lomond source file.
+    A preemption point is "entering a statement": the first line event inside a statement's line range, whichever
+    of its lines the compiler attributed the first bytecode to (multi-line statements differ between the original
+    and the instrumented code in that respect)."""
     if root in _STMT:
         return _STMT[root]
     import ast
     import os
     out = {}
     for fn in os.listdir(root):
-        if fn.endswith('.py'):
-            with open(os.path.join(root, fn)) as fh:
-                tree = ast.parse(fh.read())
-            out[fn] = set(n.lineno for n in ast.walk(tree) if isinstance(n, ast.stmt))
+        if not fn.endswith('.py'):
+            continue
+        with open(os.path.join(root, fn)) as fh:
+            tree = ast.parse(fh.read())
+        m = {}
+
+        def visit(stmts):
+            for st in stmts:
+                bodies = [getattr(st, f) for f in ('body', 'orelse', 'finalbody', 'handlers') if getattr(st, f, None)]
+                inner = []
+                for bd in bodies:
+                    for x in bd:
+                        if isinstance(x, ast.ExceptHandler):
+                            m[x.lineno] = x.lineno
+                            inner.extend(x.body)
+                        elif isinstance(x, ast.stmt):
+                            inner.append(x)
+                if inner:
+                    first = min(x.lineno for x in inner)
+                    for ln in range(st.lineno, max(st.lineno, first - 1) + 1):
+                        if ln < first or ln == st.lineno:
+                            m[ln] = st.lineno
+                    visit(inner)
+                else:
+                    for ln in range(st.lineno, (st.end_lineno or st.lineno) + 1):
+                        m[ln] = st.lineno
+        visit(tree.body)
+        out[fn] = m
     _STMT[root] = out
     return out
 
@@ -251,12 +282,15 @@ class SchedLock(object):
         return self.owner is not None
 
 
-class SplitSock(env.FakeSocket):
+class SplitSock(env._PlainSocket):
     """sendall happens in two steps with a preemption point in between"""
 
     def sendall(self, data):
         w = self.w
         it = items_of(data)
+        if it[:4] == list(b'GET '):
+            # the upgrade request (written by the loop thread before anyone else can send)
+            return env.FakeSocket.sendall(self, data)
         me = threading.current_thread().sched_name
         h = len(it) // 2
         lk = getattr(w, 'session_lock', None)
@@ -380,10 +414,49 @@ def run_sched(c, P):
                 out.append((op, 'exception:%s' % type(e).__name__, None))
         results[name] = out
         return out
+    def loop_body(name):
+        """the REAL event loop (ws.connect() -> session.run()) on this thread: the server sends a Ping, so the loop's
+        own automatic Pong competes with the other threads' sends"""
+        sent[name] = []
+        ping = [c.byte('%s_ping' % name)]
+        w.sock_class = SplitSock
+        w.default_script = Script(hconn.server_stream([0x89, 0x01] + ping), cuts='one', end='eof')
+        out = []
+        try:
+            for ev in ws.connect(poll=1e9, ping_rate=0, ping_timeout=None, close_timeout=None):
+                if ev.name == 'connecting':
+                    ws.state.session._lock = w.session_lock = SchedLock(sched)
+                elif ev.name == 'ready':
+                    sched.unblock_waiters('ready-gate')
+                    state['ready'] = True
+                elif ev.name == 'ping':
+                    sent[name].append((10, ping))
+                out.append(ev.name)
+        finally:
+            state['ready'] = True
+            sched.unblock_waiters('ready-gate')
+        results[name] = [('loop', 'ok', None)]
+        return out
+    state = {'ready': not any(ops == ['loop'] for ops in plan)}
+    if not state['ready']:
+        from lomond import WebSocket as _WS
+        ws = _WS('ws://example.com/')
+
+    def gated(name, ops):
+        # application threads only start sending once the connection is Ready
+        while not state['ready']:
+            sched.block(name, 'ready-gate')
+        return do(name, ops)
     bodies = {}
     for i, ops in enumerate(plan):
         name = 'T%d' % (i + 1)
-        bodies[name] = named(lambda name=name, ops=ops: do(name, ops), name)
+        if ops == ['loop']:
+            # the event-loop thread: statements of the session / websocket / frame / mask / compression modules are
+            # preemption points; the receive-side parser modules (no shared state with senders) are not
+            sched.trace_only[name] = {'session.py', 'websocket.py', 'frame.py', 'mask.py', 'compression.py'}
+            bodies[name] = named(lambda name=name: loop_body(name), name)
+        else:
+            bodies[name] = named(lambda name=name, ops=ops: gated(name, ops), name)
     import gc
     # z3 objects must never be finalised by a waiting thread while the running thread is inside a z3 call
     # (ctypes releases the GIL): no cyclic GC while worker threads exist
@@ -402,6 +475,8 @@ def run_sched(c, P):
     cls = set(['switches:%d' % len([s for s in sched.switches if s[2].startswith('preempt')])])
     # ---------------- the wire
     parts = [e for e in w.log if e[0] == 'write-part']
+    if not state['ready'] or any(ops == ['loop'] for ops in plan):
+        cls.add('real-event-loop')
     wire = []
     for e in parts:
         wire.extend(e[2])
